@@ -157,12 +157,13 @@ func (c *tdxValidateCommand) runE(cmd *cobra.Command, args []string) error {
 
 	return gcetcbendorsement.TdxValidate(cmd.Context(), c.content,
 		&gcetcbendorsement.TdxValidateOptions{
-			Now:          backend.Now,
-			Getter:       backend.Getter,
-			Endorsement:  c.endorsement,
-			Overwrite:    s.overwrite,
-			BasePolicy:   s.basePolicy,
-			RootsOfTrust: rot,
+			Now:            backend.Now,
+			Getter:         backend.Getter,
+			Endorsement:    c.endorsement,
+			Overwrite:      s.overwrite,
+			BasePolicy:     s.basePolicy,
+			RootsOfTrust:   rot,
+			ExpectedRAMGiB: s.ramGiB,
 		})
 }
 
